@@ -71,6 +71,7 @@ def _rule_body(ctx, name):
 
 
 def r1_factor_form(ctx):
+    _system_units_agree(ctx)
     x, f1, f2, fu, fv, fw = (Term.sym(s) for s in ("x", "f1", "f2", "fu", "fv", "fw"))
     lin = _rule_body(ctx, "_convert_linear")
     inv = _rule_body(ctx, "_convert_inversed")
@@ -242,6 +243,85 @@ def _risky_expr(expr, stored, trail, out, st=None):
             return
 
 
+def _system_units_agree(ctx):
+    """The generated table of system units (`#SMFL`, `#CLEN`, ...) restates factors that the unit table already holds:
+    where a quantity's unit in a system is a single table unit (optionally prefixed) - SI 'Wb', CGS 'Mx', 'cm', 'g' - the
+    two factors and dimension vectors are the same numbers.  A row edited on one side only converts wrongly through the
+    other (`Quantity(1,'#CMFL').to('Mx')` != 1)."""
+    from ..literal import Evaluator
+    from ..unittables import SETTINGS, unit_prefixes, unit_standard
+    cols, rows = unit_standard(ctx.repo)
+    pcols, prows = unit_prefixes(ctx.repo)
+    mi, di = cols.index("magnitude"), cols.index("dimensions")
+    pmi = pcols.index("magnitude")
+    smod = ctx.repo.module(SETTINGS)
+    ql = smod.assigns.get("QUANTITY_LIST")
+    ul = "src/scinumtools/units/unit_list.py"
+    umod = ctx.repo.module(ul)
+    qu = umod.assigns.get("QUANTITY_UNITS")
+    if not (isinstance(ql, ast.Call) and len(ql.args) >= 2) or not isinstance(qu, ast.Dict):
+        ctx.form(False, ul, "<table>", "the quantity list and the generated system-unit table are literals")
+        return
+    qcols = Evaluator(ctx.repo, smod).ev(ql.args[0])
+    qrows = Evaluator(ctx.repo, smod).ev(ql.args[1])
+    table = Evaluator(ctx.repo, umod).ev(qu)
+    n, bad = 0, []
+    for row in qrows:
+        rec = dict(zip(qcols, row))
+        for letter, col in (("S", "SI"), ("A", "AU"), ("C", "CGS")):
+            expr = rec.get(col)
+            key = f"#{letter}{rec['symbol']}"
+            if not isinstance(expr, str) or key not in table:
+                continue
+            cands = [u for u in rows if expr.endswith(u)]
+            if not cands:
+                continue
+            base = max(cands, key=len)
+            pre = expr[:-len(base)]
+            if pre and pre not in prows:
+                continue          # compound expression: not a single (prefixed) table unit
+            if pre and rows[base][cols.index("prefixes")] is False:
+                continue
+            factor = float(rows[base][mi]) * (float(prows[pre][pmi]) if pre else 1.0)
+            dims = list(rows[base][di])
+            n += 1
+            got_f, got_d = table[key][0], list(table[key][1])
+            if abs(got_f - factor) > 1e-9 * max(abs(factor), abs(got_f)) or [float(x) if not isinstance(x, tuple) else x for x in got_d] != [float(x) if not isinstance(x, tuple) else x for x in dims]:
+                bad.append(f"{key} = {got_f} {got_d}, but {expr} = {factor} {dims}")
+    ctx.floor("system-unit rows that restate a single table unit", n, 30, file=ul)
+    ctx.check(not bad, ul, "<table>", "a system-unit row that restates a single table unit has that unit's factor and dimensions", detail=bad[:4] or None)
+
+
+def _endpoints_share_units(ctx):
+    """np.linspace/np.logspace (and any other registered function that combines two quantities into one result in the
+    first one's units): the second quantity is read in the first one's units.  Its bare magnitude (`b.value()`) next to
+    the first one's units is a unit error that also accepts a different dimension."""
+    mod = ctx.repo.module(Q)
+    n = 0
+    for name, fn in mod.functions.items():
+        if not any("implements" in norm(d) for d in fn.decorator_list):
+            continue
+        ps = [a.arg for a in fn.args.args]
+        if len(ps) < 2:
+            continue
+        a, b = ps[0], ps[1]
+        uses_a_units = any(isinstance(x, ast.Attribute) and norm(x) == f"{a}.baseunits" for x in ast.walk(fn))
+        calls = [c for c in ast.walk(fn) if isinstance(c, ast.Call) and norm(c.func) == f"{b}.value"]
+        if not uses_a_units or not calls:
+            continue
+        for c in calls:
+            # only where b is known to be a quantity and the result is built in a's units
+            n += 1
+            what = f"np.{name}: the second quantity is read in the first one's units"
+            if c.args and norm(c.args[0]) == f"{a}.baseunits":
+                ctx.holds(Q, name, what)
+            elif not c.args and not c.keywords:
+                ctx.violated(Q, name, what, detail=norm(c), expected=f"{b}.value({a}.baseunits)")
+            else:
+                ctx.form(False, Q, name, what, detail=norm(c))
+    ctx.floor("two-quantity NumPy handlers reading the second operand", n, 2, file=Q)
+
+
 def _to_direction(ctx):
     """to(): per branch (target given as a unit object / as an expression) the stored magnitude is
     _convert(own magnitude, own units, target units) - divided by the unit object's own magnitude when the target is a
@@ -323,6 +403,7 @@ def r4_atomic_to(ctx):
                   detail=[{"statement": s, "path": p} for s, p in out[:4]] or None,
                   expected="a refused conversion leaves magnitude and units untouched")
     _to_direction(ctx)
+    _endpoints_share_units(ctx)
     fn = ctx.fn(Q, "Quantity.value")
     from ..flowexpr import consistent, paths as _paths, reduce_ifexp
     pa = [a.arg for a in fn.args.args]
